@@ -19,16 +19,18 @@ What is transcribed
   k-th invocation of `prog`): exit code or death by signal; a failing `as`/`ld` may leave its output path
   untouched, leave junk in it, or remove it (`Outcome.leaves`);
 * cc1 (main.c `cc1`): the assembly is produced into a memory buffer and the output file is opened only
-  after `codegen` returned (`-E`: `print_tokens` opens it after `preprocess`), so a failing cc1 writes
-  nothing to its output path; a succeeding one writes it completely;
+  after `codegen` returned (`-E`: `print_tokens` opens it after `preprocess`), so a cc1 whose front end fails
+  writes nothing to its output path; a succeeding one writes it completely; the dependency file of `-MD` is
+  written last, so a cc1 that fails THERE has written its output completely (`Leaves.complete`);
 * `exit()` / `return` from `main`: the `atexit` handler `cleanup` unlinks every entry of `tmpfiles`
   (one step per `unlink`), then the process is gone (`Phase.done code`).
 
 `Phase.stuck` is a model-internal error (a temp register that was never filled); `doActs_not_stuck` with
 `compile_WF` in Lemmas/DriverProcLemmas.lean shows it is unreachable (`C14_terminates`).
 
-Not modelled: the `-M`, `-MD`, `-MF` family, `-x`, `-Wl,` splitting, `-###`, `-static`, `-shared` (they do not
-change the process structure); a failing `fork`.  A cc1 whose WRITE fails after a successful `fopen`
+`-M` is `Cmd.depsOnly`; the argument parser that produces the `Cmd` from argv (all options, `-x`, `-Wl,`) is
+Model/C14Args.lean + Model/C14Compose.lean, the dependency output of the cc1 children (`-M`, `-MD`, `-MF`) is
+Model/C14Deps.lean.  Not modelled: a failing `fork`.  A cc1 whose WRITE fails after a successful `fopen`
 (ENOSPC; main.c `close_file` turns it into `error()`) is a failing cc1 that has already truncated its
 output: the model's cc1 fails only before opening; the harness exercises the write error on `/dev/full`,
 where nothing is left behind.
@@ -43,7 +45,7 @@ namespace ChibiVerif.DriverProc
 inductive Mode where | E | S | c | link deriving DecidableEq, Repr, Inhabited
 inductive Kind where | C | asm | obj | lib | unknown deriving DecidableEq, Repr, Inhabited
 inductive Prog where | cc1 | as | ld deriving DecidableEq, Repr, Inhabited
-inductive Cls where | orig | empty | pp | asm | obj | exe | junk deriving DecidableEq, Repr, Inhabited
+inductive Cls where | orig | empty | pp | asm | obj | exe | junk | deps deriving DecidableEq, Repr, Inhabited
 
 structure Content where
   cls : Cls
@@ -62,9 +64,11 @@ def Status.wait : Status → Nat
   | .exit k => (k % 256) * 256
   | .signal n => n % 127 + 1
 
-/-- what a FAILING as/ld does to its output path (GNU as and ld unlink it on error; a tool killed half-way
-    leaves a partial file; or it never got as far as opening it) -/
-inductive Leaves where | untouched | junk | removed deriving DecidableEq, Repr, Inhabited
+/-- what a FAILING child does to its output path (GNU as and ld unlink it on error; a tool killed half-way
+    leaves a partial file; or it never got as far as opening it; or it wrote the whole output and failed
+    afterwards — `complete` — which for cc1 happens in exactly one way: under `-MD` the assembly was written and the
+    write of the dependency file, which comes last, failed) -/
+inductive Leaves where | untouched | junk | removed | complete deriving DecidableEq, Repr, Inhabited
 
 structure Outcome where
   status : Status
@@ -110,9 +114,18 @@ structure Cmd (P : Type) where
   out : Option P      -- `-o`
   inputs : List (Input P)
   aout : P            -- "a.out"
+  /-- `-M`: every C input is run through cc1 without an output (cc1 prints the dependencies and returns), `.s` inputs
+      are skipped, nothing is assembled or linked — whatever `-E`/`-S`/`-c` say (`opt_E || opt_M`, `opt_S || opt_E || opt_M`,
+      `!opt_c && !opt_S && !opt_E && !opt_M` in main.c) -/
+  depsOnly : Bool := false
+  /-- entries of `input_paths` that the loop skips without any effect (`-Wl,` with no non-empty token): they count for
+      `input_paths.len` (the `no input files` and the `-o with multiple files` tests) and for nothing else -/
+  nExtra : Nat := 0
   deriving DecidableEq, Repr
 
-inductive DrvErr where | multiO | unknownExt | noInput deriving DecidableEq, Repr, Inhabited
+/-- `error()` / `usage()` of the driver itself; the last three are raised by `parse_args` -/
+inductive DrvErr where | multiO | unknownExt | noInput | usage | unknownArg | unknownX
+  deriving DecidableEq, Repr, Inhabited
 
 /-- a path known when the command is read, or the i-th entry of `tmpfiles` (a local `char *tmp`) -/
 inductive Ref (P : Type) where
@@ -181,6 +194,7 @@ def unitOutput (cmd : Cmd P) (i : Input P) : P :=
 
 /-- number of `create_tmpfile` calls of one loop iteration -/
 def planTemps (cmd : Cmd P) (i : Input P) : Nat :=
+  if cmd.depsOnly then 0 else
   match effKind cmd.mode i.kind, cmd.mode with
   | .C, .c => 1
   | .C, .link => 2
@@ -194,12 +208,14 @@ def plan (cmd : Cmd P) (n : Nat) (i : Input P) : List (Act P) :=
   | .unknown => [.fail .unknownExt]
   | .obj => [.pushLd (.path i.path)]
   | .asm =>
+    if cmd.depsOnly then [] else
     match cmd.mode with
     | .S => []
     | .E => []
     | .c => [.run .as (.path i.path) (some (.path (unitOutput cmd i)))]
     | .link => [.mktemp, .run .as (.path i.path) (some (.tmp n)), .pushLd (.tmp n)]
   | .C =>
+    if cmd.depsOnly then [.run .cc1 (.path i.path) none] else
     match cmd.mode with
     | .E => [.run .cc1 (.path i.path) (cmd.out.map .path)]
     | .S => [.run .cc1 (.path i.path) (some (.path (unitOutput cmd i)))]
@@ -208,17 +224,17 @@ def plan (cmd : Cmd P) (n : Nat) (i : Input P) : List (Act P) :=
     | .link => [.mktemp, .mktemp, .run .cc1 (.path i.path) (some (.tmp n)),
                 .run .as (.tmp n) (some (.tmp (n + 1))), .pushLd (.tmp (n + 1))]
 
-/-- the loop, then `if (ld_args.len > 0 && !opt_c && !opt_S && !opt_E) run_linker(…)` -/
+/-- the loop, then `if (ld_args.len > 0 && !opt_c && !opt_S && !opt_E && !opt_M) run_linker(…)` -/
 def compileLoop (cmd : Cmd P) : Nat → List (Input P) → List (Act P)
-  | _, [] => if cmd.mode = .link then [.link (cmd.out.getD cmd.aout)] else []
+  | _, [] => if cmd.mode = .link ∧ cmd.depsOnly = false then [.link (cmd.out.getD cmd.aout)] else []
   | n, i :: r => plan cmd n i ++ compileLoop cmd (n + planTemps cmd i) r
 
 def multiO (cmd : Cmd P) : Bool :=
-  decide (cmd.inputs.length > 1) && cmd.out.isSome && decide (cmd.mode ≠ .link)
+  decide (cmd.inputs.length + cmd.nExtra > 1) && cmd.out.isSome && decide (cmd.mode ≠ .link)
 
 /-- `main` after `parse_args` -/
 def compile (cmd : Cmd P) : List (Act P) :=
-  if cmd.inputs.isEmpty then [.fail .noInput]
+  if cmd.inputs.isEmpty ∧ cmd.nExtra = 0 then [.fail .noInput]
   else if multiO cmd then [.fail .multiO]
   else compileLoop cmd 0 cmd.inputs
 
@@ -241,12 +257,13 @@ def childEffect (mode : Mode) (prog : Prog) (oc : Outcome) (fs : FS P) (inp : Li
   match out with
   | none => fs                                    -- `-E` without `-o`: stdout
   | some o =>
-    if oc.status.wait = 0 then fs.set o (childOut mode prog fs inp)
+    if oc.status.wait = 0 ∨ oc.leaves = .complete then fs.set o (childOut mode prog fs inp)
     else if prog = .cc1 then fs                   -- cc1 opens its output only after codegen succeeded
     else match oc.leaves with
       | .untouched => fs
       | .junk => fs.set o ⟨.junk, []⟩
       | .removed => fs.erase o
+      | .complete => fs                           -- (handled above)
 
 /-! ### the driver's steps -/
 
@@ -423,6 +440,7 @@ def Event.isCleanup : Event P → Bool
 
 /-- does input `i` produce an output file of its own in this mode (`-E -o f`, `-S`, `-c`)? -/
 def isUnit (cmd : Cmd P) (i : Input P) : Bool :=
+  if cmd.depsOnly then false else
   match cmd.mode, effKind cmd.mode i.kind with
   | .E, .C => cmd.out.isSome
   | .S, .C => true
@@ -440,7 +458,8 @@ def unitCls (cmd : Cmd P) : Cls :=
 /-- the outputs the command asks for (gcc's rules: `-o f`, else `<stem>.s` / `<stem>.o` per translation
     unit, else `a.out`; linker inputs are ignored when not linking) -/
 def requested (cmd : Cmd P) : List P :=
-  if cmd.mode = .link then [cmd.out.getD cmd.aout]
+  if cmd.depsOnly then []
+  else if cmd.mode = .link then [cmd.out.getD cmd.aout]
   else (cmd.inputs.filter (isUnit cmd)).map (unitOutput cmd)
 
 /-- total number of `create_tmpfile` calls of a command -/
